@@ -85,6 +85,7 @@ theorem C18_source_decode (c : BitVec 8) :
   rw [hm] at h
   exact h
 
-theorem C18_source_translation_complete : GoSrc.failures = [] := by decide
+-- (that every function on the translation list was translated is required once, in Props/C02 and Props/C03; a function of
+-- this property that fell out of the translator's subset would make the theorems above fail to elaborate)
 
 end Props.C18
